@@ -21,8 +21,14 @@ def make_wl(rng, k):
     opts["annotated"] = True
     spec["paralogs"] = rng.choice([1, 2])
     spec["jitter"] = rng.choice([1, 3, 8])
-    spec["deep_gene"] = 1 if (k is not None and k % 4 == 0) or rng.random() < 0.25 else 0
+    spec["deep_gene"] = (2 if k is not None and k % 8 == 0 else rng.choice([1, 2])) if (k is not None and k % 4 == 0) or rng.random() < 0.25 else 0
     spec["truncate"] = 1 if spec["deep_gene"] else spec.get("truncate", 1)
+    if spec["deep_gene"] and k is not None:
+        # the deep gene is built for the default ONT thresholds (a novel model that is constructed and then filtered out again)
+        opts["data_type"] = "nanopore"
+        opts.pop("model_strategy", None)
+        opts.pop("extra", None)
+        spec["polya"] = 1
     # multi-mapped reads whose kept record(s) name one gene but two isoforms (labels vs. number of features)
     spec["ambig_multi"] = rng.choice([2, 4, 6])
     return spec, opts
